@@ -479,6 +479,114 @@ def oracle_layout(base, func, spec, bc):
     return problems
 
 
+# ------------------------------------------------------------------ ambient settings
+# The conversions are pure formulas of their arguments: what the process has configured around them (verbosity of the
+# library logger, numpy's floating-point error state, the warnings filters, print options) must not change a result.
+# harness/common.py silences the 'ibicus' logger, so the oracle sets the level itself and restores everything.
+AMBIENTS = ["logger DEBUG", "logger INFO", "root logger DEBUG", "errstate raise", "warnings as errors", "errstate ignore", "printoptions"]
+
+
+class ambient:
+    def __init__(self, name):
+        self.name = name
+
+    def __enter__(self):
+        import logging
+
+        self.lg, self.root = logging.getLogger("ibicus"), logging.getLogger()
+        self.saved = (self.lg.level, self.lg.propagate, list(self.lg.handlers), self.root.level, logging.root.manager.disable, list(self.root.handlers))
+        self.cm = []
+        if self.name.startswith("logger") or self.name == "root logger DEBUG":
+            logging.disable(logging.NOTSET)
+            self.lg.addHandler(logging.NullHandler())
+            # only a NullHandler on the root: without handlers it would print through logging.lastResort, and
+            # logging.warning() installs a StreamHandler (basicConfig) the first time it is called
+            self.root.handlers[:] = [logging.NullHandler()]
+            self.lg.propagate = False  # nothing is printed
+            if self.name == "root logger DEBUG":
+                self.root.setLevel(logging.DEBUG)
+                self.lg.setLevel(logging.NOTSET)  # inherits DEBUG from the root
+            else:
+                level = logging.DEBUG if self.name.endswith("DEBUG") else logging.INFO
+                try:
+                    import ibicus.utils._utils as uu
+
+                    uu.set_verbosity_library_logger(level)  # the documented way
+                except Exception:  # noqa: BLE001
+                    self.lg.setLevel(level)
+        elif self.name == "errstate raise":
+            self.cm = [np.errstate(all="raise")]
+        elif self.name == "errstate ignore":
+            self.cm = [np.errstate(all="ignore")]
+        elif self.name == "warnings as errors":
+            w = warnings.catch_warnings()
+            self.cm = [w]
+        elif self.name == "printoptions":
+            self.cm = [np.printoptions(precision=1, threshold=3, suppress=True)]
+        for c in self.cm:
+            c.__enter__()
+        if self.name == "warnings as errors":
+            warnings.simplefilter("error")
+        return self
+
+    def __exit__(self, *exc):
+        import logging
+
+        for c in reversed(self.cm):
+            c.__exit__(*exc)
+        self.lg.setLevel(self.saved[0])
+        self.lg.propagate = self.saved[1]
+        self.lg.handlers[:] = self.saved[2]
+        self.root.setLevel(self.saved[3])
+        self.root.handlers[:] = self.saved[5]
+        logging.disable(self.saved[4])
+        return False
+
+
+@no_raise
+def oracle_ambient(name, tas, tasmin, tasmax, pr, prsn):
+    """well-formed float64 data: under the ambient setting `name` every function returns the documented formula, the
+    paired functions equal the single ones bit for bit, the round trip holds and the inputs are untouched"""
+    u = U()
+    v = {"tas": tas, "tasmin": tasmin, "tasmax": tasmax, "pr": pr, "prsn": prsn}
+    v["r"], v["s"], v["q"] = np.array(tasmax - tasmin), np.array((tas - tasmin) / (tasmax - tasmin)), np.array(prsn / pr)
+    before = {k: np.array(a, copy=True) for k, a in v.items()}
+    want = {f: seq_reference(f, before) for f in FUNC_ARGS}
+    got = {}
+    with ambient(name):
+        for f in sorted(FUNC_ARGS):
+            out = getattr(u, f)(*[v[a] for a in FUNC_ARGS[f]])
+            got[f] = tuple(np.array(o, copy=True) for o in (out if isinstance(out, tuple) else (out,)))
+        r, s = u.get_tasrange_tasskew(tas, tasmin, tasmax)
+        back = u.get_tasmin_tasmax(tas, r, s)
+    problems = []
+    what = f"with {name}"
+    for k in v:
+        if not np.array_equal(np.asarray(v[k]), before[k], equal_nan=True):
+            problems.append((f"{what}: a call changed its argument '{k}'", {}))
+    for f in sorted(FUNC_ARGS):
+        tol = REL * mag(*[before[a] for a in FUNC_ARGS[f]])
+        for pos, (g, w) in enumerate(zip(got[f], want[f])):
+            if g.shape != w.shape:
+                problems.append((f"{what}: {f} output {pos} has shape {g.shape}, inputs {w.shape}", {}))
+                continue
+            fin = np.isfinite(w)
+            wz = np.where(fin, w, 0.0)
+            bad = (np.isfinite(g) != fin) | (fin & ~(np.abs(np.where(fin, g, 0.0) - wz) <= tol + REL * np.abs(wz)))
+            if np.any(bad):
+                problems.append((f"{what}: {f} output {pos} differs from the documented formula", first_bad(bad, g, w)))
+    for pair, singles in (("get_tasrange_tasskew", ("get_tasrange", "get_tasskew")), ("get_tasmin_tasmax", ("get_tasmin", "get_tasmax"))):
+        for pos, sg in enumerate(singles):
+            if not np.array_equal(got[pair][pos], got[sg][0], equal_nan=True):
+                problems.append((f"{what}: {pair}(...)[{pos}] differs from {sg}(...)", {}))
+    tol = REL * mag(tas, tasmin, tasmax)
+    for nm, b, orig in (("tasmin", back[0], tasmin), ("tasmax", back[1], tasmax)):
+        bad = ~(np.abs(np.asarray(b) - orig) <= tol)
+        if np.shape(b) != np.shape(orig) or np.any(bad):
+            problems.append((f"{what}: round trip does not return {nm}", first_bad(bad, tas, tasmin, tasmax, np.asarray(b)) if np.shape(b) == np.shape(orig) else {}))
+    return problems
+
+
 # ------------------------------------------------------------------ correspondence helpers
 def flat(a):
     return [float(x) for x in np.asarray(a, dtype=float).reshape(-1)]
@@ -609,6 +717,22 @@ def run(tier, res, force_search=False):
             p_, d_ = rr.problem()
             problems_all.append((p_, d_))
 
+    # ambient settings: logger verbosity, numpy error state, warnings filters
+    n_amb = (3 if tier == "quick" else 20) * (3 if (force_search or not lean_ok) else 1)
+    for k in range(n_amb):
+        while True:
+            tas, tasmin, tasmax = gen_tas(rng, tier, "wellformed")
+            if tas.size > 1:
+                break
+        pr = fill(tas.shape, lambda: rng.randint(1, 64 * 50) / 64.0)
+        prsn = pr * fill(tas.shape, lambda: rng.randint(1, 64) / 64.0)
+        for name in AMBIENTS:
+            res.count(("ambient", name, tas.shape, tas.tobytes()), True,
+                      sample={"family": "ambient", "setting": name, "shape": list(tas.shape)} if (k == 0 and name == AMBIENTS[0]) else None)
+            for p, d in oracle_ambient(name, tas, tasmin, tasmax, pr, prsn):
+                problems_all.append((p, {"oracle": "ambient", "family": "ambient", "setting": name, "shape": list(tas.shape), "tas": tas.tolist(),
+                                         "tasmin": tasmin.tolist(), "tasmax": tasmax.tolist(), "pr": pr.tolist(), "prsn": prsn.tolist(), "detail": d}))
+
     # dtypes / memory layouts / singleton axes / broadcasting
     n_lay = (60 if tier == "quick" else 900) * (3 if (force_search or not lean_ok) else 1)
     for k in range(n_lay):
@@ -674,7 +798,7 @@ def run(tier, res, force_search=False):
 
     seen = set()
     for p, case in problems_all:
-        key = (p if case.get("oracle") not in ("sequence", "layout", "raise") else
+        key = ((case.get("setting"), p.split(":")[1][:30]) if case.get("oracle") == "ambient" else p if case.get("oracle") not in ("sequence", "layout", "raise") else
                (" ".join(p.split(" ")[2:4]) if case.get("oracle") == "sequence" else (case.get("function"), p.split(":")[-1][:12])), case.get("oracle"))
         if len(res.violations) >= 6:
             break
@@ -696,7 +820,9 @@ def replay(data):
         print("replay without failing input: run ./check C18 --tier quick")
         return 2
     A = lambda k: np.asarray(fi[k], dtype=float)  # noqa: E731
-    if fi["oracle"] == "raise":
+    if fi["oracle"] == "ambient":
+        probs = oracle_ambient(fi["setting"], A("tas"), A("tasmin"), A("tasmax"), A("pr"), A("prsn"))
+    elif fi["oracle"] == "raise":
         try:
             with warnings.catch_warnings(), np.errstate(all="ignore"):
                 warnings.simplefilter("ignore")
